@@ -217,12 +217,52 @@ func side(c *core.Ctx, fn *core.Fn, name, own, peer, peerErr string) {
 		})
 		c.Check("R4.wait", name+"/peer-open", wn.Pos(), okPeer,
 			fmt.Sprintf("Wait must be reachable only when %s is nil: sleeping after the other side closed can never be woken", peerErr), w3...)
-		// after Wait: return 0, nil
-		next := wp.B.Nodes[wp.I+1:]
-		okRet := false
-		if len(next) > 0 {
-			okRet = pat.Stmt("return 0, nil").Match(info, next[0], nil) != nil
+		// after Wait: nothing but a return of (0, nil); the results may be spelled as the
+		// store call's n and err, which the no-progress edge pins to 0 and nil
+		okRet, sawRet := true, false
+		seenB := map[*cfg.Block]bool{}
+		var walk func(b *cfg.Block, from int)
+		walk = func(b *cfg.Block, from int) {
+			for i := from; i < len(b.Nodes); i++ {
+				nd := b.Nodes[i]
+				if ret, isRet := nd.(*ast.ReturnStmt); isRet {
+					sawRet = true
+					if len(ret.Results) != 2 {
+						okRet = false
+						return
+					}
+					r0, r1 := ast.Unparen(ret.Results[0]), ast.Unparen(ret.Results[1])
+					if v, isC := core.IntConst(info, r0); !(isC && v == 0) && !pat.Same(info, r0, binds["_n"]) {
+						okRet = false
+					}
+					if !core.IsNil(info, r1) && !pat.Same(info, r1, binds["_err"]) {
+						okRet = false
+					}
+					return
+				}
+				if _, isDefer := nd.(*ast.DeferStmt); isDefer {
+					continue
+				}
+				if len(cfgq.ExecCalls(nd)) > 0 {
+					okRet = false
+				}
+				if as, isAs := nd.(*ast.AssignStmt); isAs {
+					for _, l := range as.Lhs {
+						if pat.Same(info, l, binds["_n"]) || pat.Same(info, l, binds["_err"]) {
+							okRet = false
+						}
+					}
+				}
+			}
+			for _, s := range b.Succs {
+				if !seenB[s] {
+					seenB[s] = true
+					walk(s, 0)
+				}
+			}
 		}
+		walk(wp.B, wp.I+1)
+		okRet = okRet && sawRet
 		c.Check("R4.wait", name+"/return-after-wait", wn.Pos(), okRet, "after Wait the function must return (0, nil) so that the caller's loop re-examines the state under the lock")
 	}
 	// callers loop
@@ -504,76 +544,48 @@ func siblings(c *core.Ctx) {
 			}
 			find := func(p *pat.Pattern, b pat.Binds) (ast.Node, pat.Binds) { return p.Find(info, body, b) }
 			switch m {
-			case "readSome":
-				n, b := find(pat.Stmt("_maxlen, _offset = roffset(len(_b), _p.size, _p.rpos, _p.wpos)"), nil)
-				chk("roffset-args", n != nil, "calls roffset(len(b), p.size, p.rpos, p.wpos) with the arguments in parameter order")
-				if n == nil {
+			case "readSome", "writeSome":
+				sp := ring.TransferSpec{Rule: "R6.sibling", Key: tn + "." + m, Args: []string{"len(_b)", "_p.size", "_p.rpos", "_p.wpos"}}
+				if m == "readSome" {
+					sp.OffsetFn, sp.ArgsDesc, sp.Read, sp.Advance = "roffset", "roffset(len(b), p.size, p.rpos, p.wpos)", true, "rpos"
+					sp.ArgsKey, sp.WindowKey, sp.AdvKey = "roffset-args", "transfer-window", "advance-rpos"
+					sp.WindowMsg = "the bytes are taken from exactly [offset, offset+maxlen) of the backing store into the caller's buffer"
+					sp.AdvMsg = "rpos advances by exactly the number of bytes transferred"
+				} else {
+					sp.OffsetFn, sp.ArgsDesc, sp.Read, sp.Advance = "woffset", "woffset(len(b), p.size, p.rpos, p.wpos)", false, "wpos"
+					sp.ArgsKey, sp.WindowKey, sp.AdvKey = "woffset-args", "transfer-window", "advance-wpos"
+					sp.WindowMsg = "the bytes are put into exactly [offset, offset+maxlen) of the backing store from the front of the caller's buffer"
+					sp.AdvMsg = "wpos advances by exactly the number of bytes transferred"
+				}
+				res := ring.Transfer(c, fn, sp)
+				if res == nil || res.Transfer == nil {
 					continue
 				}
-				var src ast.Node
-				var b2 pat.Binds
-				for _, p := range []*pat.Pattern{
-					pat.Stmt("_n = copy(_b, _p._store[_offset:_offset+_maxlen])"),
-					pat.Stmt("_n, _err = _p._store.ReadAt(_b[:_maxlen], int64(_offset))"),
-				} {
-					if src == nil {
-						src, b2 = find(p, b)
+				if m == "readSome" {
+					switch resetWhenEmpty(c, fn) {
+					case 1:
+						chk("reset-when-empty", true, "when rpos meets wpos both positions are reset to 0 together")
+					case 0:
+						chk("reset-when-empty", false, "when rpos meets wpos both positions are reset to 0 together (and only then)")
+					default:
+						c.Undecidedf("R6.sibling", tn+"."+m+"/reset-when-empty", fn.Decl.Pos(), "cannot see where the positions are reset")
 					}
+				} else {
+					st := ring.FrozenField(c, fn, "rpos")
+					chk("no-rpos-write", len(st) == 0, "the write side never moves rpos")
 				}
-				chk("transfer-window", src != nil, "the bytes are taken from exactly [offset, offset+maxlen) of the backing store into the caller's buffer")
-				if src == nil {
-					continue
+				zk, zmsg := "empty-returns-zero", "an empty ring yields (0, nil) so that the caller waits"
+				if m == "writeSome" {
+					zk, zmsg = "full-returns-zero", "a full ring yields (0, nil) so that the caller waits"
 				}
-				adv, _ := find(pat.Stmt("_p.rpos += uint64(_n)"), b2)
-				chk("advance-rpos", adv != nil, "rpos advances by exactly the number of bytes transferred")
-				switch resetWhenEmpty(c, fn) {
+				switch v, why := ring.ZeroGuard(c, res); v {
 				case 1:
-					chk("reset-when-empty", true, "when rpos meets wpos both positions are reset to 0 together")
+					chk(zk, true, zmsg)
 				case 0:
-					chk("reset-when-empty", false, "when rpos meets wpos both positions are reset to 0 together (and only then)")
+					chk(zk, false, zmsg+"; "+why)
 				default:
-					c.Undecidedf("R6.sibling", tn+"."+m+"/reset-when-empty", fn.Decl.Pos(), "cannot see where the positions are reset")
+					c.Undecidedf("R6.sibling", tn+"."+m+"/"+zk, fn.Decl.Pos(), "%s: %s", zmsg, why)
 				}
-				zero, _ := findIf(info, body, pat.Expr("_maxlen == 0"), b2)
-				okZero := false
-				if zero != nil {
-					r, _ := pat.Stmt("return 0, nil").Find(info, zero.Body, nil)
-					okZero = r != nil
-				}
-				chk("empty-returns-zero", okZero, "an empty ring yields (0, nil) so that the caller waits")
-				chk("closed-store", closedGuard(info, body), "a nil backing store yields io.ErrClosedPipe")
-			case "writeSome":
-				n, b := find(pat.Stmt("_maxlen, _offset = woffset(len(_b), _p.size, _p.rpos, _p.wpos)"), nil)
-				chk("woffset-args", n != nil, "calls woffset(len(b), p.size, p.rpos, p.wpos) with the arguments in parameter order")
-				if n == nil {
-					continue
-				}
-				var src ast.Node
-				var b2 pat.Binds
-				for _, p := range []*pat.Pattern{
-					pat.Stmt("_n = copy(_p._store[_offset:_offset+_maxlen], _b)"),
-					pat.Stmt("_n, _err = _p._store.WriteAt(_b[:_maxlen], int64(_offset))"),
-				} {
-					if src == nil {
-						src, b2 = find(p, b)
-					}
-				}
-				chk("transfer-window", src != nil, "the bytes are put into exactly [offset, offset+maxlen) of the backing store from the front of the caller's buffer")
-				if src == nil {
-					continue
-				}
-				adv, _ := find(pat.Stmt("_p.wpos += uint64(_n)"), b2)
-				chk("advance-wpos", adv != nil, "wpos advances by exactly the number of bytes transferred")
-				bad, _ := find(pat.Stmt("_p.rpos = _x"), b2)
-				bad2, _ := find(pat.Stmt("_p.rpos += _x"), b2)
-				chk("no-rpos-write", bad == nil && bad2 == nil, "the write side never moves rpos")
-				zero, _ := findIf(info, body, pat.Expr("_maxlen == 0"), b2)
-				okZero := false
-				if zero != nil {
-					r, _ := pat.Stmt("return 0, nil").Find(info, zero.Body, nil)
-					okZero = r != nil
-				}
-				chk("full-returns-zero", okZero, "a full ring yields (0, nil) so that the caller waits")
 				chk("closed-store", closedGuard(info, body), "a nil backing store yields io.ErrClosedPipe")
 			case "buffered":
 				n, _ := find(pat.Stmt("return int(_p.wpos - _p.rpos)"), nil)
